@@ -20,7 +20,7 @@ Pre == Reg(A, "alice", "u1") \o Reg(B, "bob", "u2") \o Reg(C, "carol", "u3") \o 
 Change == { St(A, "OPER", <<<<"god">>, <<"godpass">>>>), St(A, "AWAY", <<<<"gone fishing">>>>), St(A, "AWAY", <<>>),
             St(B, "MODE", <<<<"bob">>, <<"+i">>>>), St(D, "NICK", <<<<"david">>>>), St(D, "NICK", <<<<"dave">>>>), St(D, "QUIT", <<>>),
             St(A, "MODE", <<<<"alice">>, <<"-o">>>>), St(B, "PART", <<<<"#one">>>>), St(D, "MODE", <<<<"#two">>, <<"+s">>>>),
-            St(B, "QUIT", <<>>), St(E, "USER", <<<<"u5">>, <<"Real u5">>>>) }   \* leave, then arrive: the maximum stays the high-water mark
+            St(B, "CAP", <<<<"LS">>>>), St(B, "CAP", <<<<"END">>>>), St(B, "QUIT", <<>>), St(E, "USER", <<<<"u5">>, <<"Real u5">>>>) }   \* leave, then arrive: the maximum stays the high-water mark
 Queries(c) ==
     { St(c, "USERHOST", <<<<"alice", "bob", "nobody", "dave">>>>), St(c, "USERHOST", <<<<"alice", "alice", "ALICE">>>>),
       St(c, "USERHOST", <<<<"david">>>>),
